@@ -116,7 +116,7 @@ def run_unit(u):
                     # a rejected sentence has no forest at all: every derivation is missing
                     b.add("input", enc_input(num, p, text))
                     q = b.add("sentence", CHART_FUEL)
-                    checks.append((case, None, q, None, b.add("glr", GLR_FUEL), "syntax"))
+                    checks.append((case, None, q, None, b.add("glr", GLR_FUEL, 1, 0), "syntax"))
                     continue
                 except BudgetExceeded:
                     continue        # termination is C01's
@@ -129,14 +129,14 @@ def run_unit(u):
                 st["sentences"] += 1
                 b.add("input", enc_input(num, p, text))
                 q = b.add("sppf", CHART_FUEL, 1)
-                checks.append((case, d, q, skip_table(p, text), b.add("glr", GLR_FUEL), glr_alt_set(num, f)))
+                checks.append((case, d, q, skip_table(p, text), b.add("glr", GLR_FUEL, 1, 0), glr_alt_set(num, f)))
             out = b.run()
             st["traces"] += len(checks)
             for case, d, q, skip, qg, impl_glr in checks:
                 # the GLR driver model (Model/GLR.lean) against the implementation: acceptance and the exact
                 # set of packed alternatives, on every input where the model applies
                 mg = parse_glr_reply(out[qg])
-                if isinstance(mg, str) and mg in ("lexamb", "fuel"):
+                if isinstance(mg, str) and mg in ("ordersens", "fuel"):
                     bump(st, "glr_model_" + mg)
                     model_agrees = True          # no prediction
                 else:
